@@ -201,6 +201,25 @@ ISOMETRY_INVARIANT = {"jordancurve.IntegrateJordan.lenght", "jordancurve.Integra
                       "curve.IntegratePlanar.lenght", "curve.IntegratePlanar.area"}
 
 
+def _through_private_helpers(ctx, called, depth=0):
+    """the repository functions a set of callees stands for: a private helper a later change cut out of the filler
+    (`__signed_lenght`) is replaced by what it calls itself"""
+    from .known_names import KNOWN
+    out = set()
+    for q in called:
+        fn = ctx.model.funcs.get(q)
+        nm = q.rsplit(".", 1)[-1]
+        if fn is not None and depth < 3 and q not in ISOMETRY_INVARIANT and nm.startswith("_") \
+                and not (nm.startswith("__") and nm.endswith("__")) and nm not in KNOWN:
+            inf = ctx.typer.of(fn)
+            inner = {t.qname for x in ast.walk(fn.node) for t in inf.targets(x)}
+            if inner:
+                out |= _through_private_helpers(ctx, inner, depth + 1)
+                continue
+        out.add(q)
+    return out
+
+
 def filler_is_isometry_invariant(ctx, filler, fsrc):
     """the cached value is computed only from isometry-invariant integrals of self"""
     selfn = cache_param(filler, fsrc)
@@ -217,6 +236,7 @@ def filler_is_isometry_invariant(ctx, filler, fsrc):
                 for x in (ast.walk(b) if region is n.body else [b]):
                     for t in inf.targets(x):
                         called.add(t.qname)
+            called = _through_private_helpers(ctx, called)
             return bool(called) and called <= ISOMETRY_INVARIANT
     # eager snapshot (no cache test): every repository query the filler makes must be invariant
     called = {t.qname for x in ast.walk(filler.node) for t in inf.targets(x, ("call", "dunder"))
